@@ -1,4 +1,4 @@
-import Sm9.Proofs.JacobianInst
+import Sm9.Proofs.JacobianInst2
 /-!
 # C04 — G1 and G2 addition, subtraction and negation implement the curve group law
 
@@ -10,8 +10,8 @@ valid P, Q.  Commutativity, associativity and neutrality are then inherited from
 `AddCommGroup` instance.  `G1.*` : the same statements about the model's own `G1`
 operations (its `FieldElement Fq` instance is shown equal to the field-induced one; 2 ≠ 0
 and "−5 is not a cube in Fq" are discharged by kernel evaluation + Fermat).
-For G2 the generic theorems apply verbatim once `Field Fq2` and "−5u is not a cube" are
-available (in progress, C17); until then G2 is decided by the oracle comparison.
+`G2.*` : likewise for the model's own `G2` operations over the field Fq2 (C17), with
+"−5u is not a cube in Fq2" by kernel evaluation of (−5u)^((q²−1)/3) and |Fq2ˣ| = q²−1.
 -/
 namespace Sm9.C04
 open Jac
@@ -47,6 +47,23 @@ theorem g1_add_assoc (P Q R : G1) (hP : G1.Valid P) (hQ : G1.Valid Q) (hR : G1.V
 theorem g1_add_identity (P O : G1) (hP : G1.Valid P) (hO : O.z = 0) : G1.toAff (P.add O) = G1.toAff P := by
   rw [G1.add_correct P O hP (Or.inl hO), G1.toAff_zero O hO, add_zero]
 theorem g1_no_two_torsion (x : Fq) : x ^ 3 + b1 ≠ 0 := Fq.no_two_torsion x
+/-! the model's own G2 operations -/
+theorem g2_add (P Q : G2) (hP : G2.Valid P) (hQ : G2.Valid Q) :
+    G2.toAff (P.add Q) = G2.toAff P + G2.toAff Q ∧ G2.Valid (P.add Q) :=
+  ⟨G2.add_correct P Q hP hQ, G2.add_valid P Q hP hQ⟩
+theorem g2_sub (P Q : G2) (hP : G2.Valid P) (hQ : G2.Valid Q) : G2.toAff (P.sub Q) = G2.toAff P - G2.toAff Q :=
+  G2.sub_correct P Q hP hQ
+theorem g2_neg (P : G2) (hP : G2.Valid P) : G2.toAff P.neg = -G2.toAff P ∧ G2.Valid P.neg :=
+  ⟨G2.neg_correct P hP, G2.neg_valid P hP⟩
+theorem g2_double (P : G2) (hP : G2.Valid P) : G2.toAff P.double = G2.toAff P + G2.toAff P :=
+  G2.double_correct P hP
+theorem g2_add_comm (P Q : G2) (hP : G2.Valid P) (hQ : G2.Valid Q) : G2.toAff (P.add Q) = G2.toAff (Q.add P) := by
+  rw [G2.add_correct P Q hP hQ, G2.add_correct Q P hQ hP, add_comm]
+theorem g2_add_assoc (P Q R : G2) (hP : G2.Valid P) (hQ : G2.Valid Q) (hR : G2.Valid R) :
+    G2.toAff ((P.add Q).add R) = G2.toAff (P.add (Q.add R)) := by
+  rw [G2.add_correct _ R (G2.add_valid P Q hP hQ) hR, G2.add_correct P Q hP hQ,
+    G2.add_correct P _ hP (G2.add_valid Q R hQ hR), G2.add_correct Q R hQ hR, add_assoc]
+theorem g2_no_two_torsion (x : Fq2) : x ^ 3 + b2 ≠ 0 := Fq2.no_two_torsion x
 /-- representation-level identity handling (both groups) -/
 theorem g1_zero_add (a b : G1) (h : a.z = 0) : a.add b = b := G1.add_zero_left a b h
 theorem g2_zero_add (a b : G2) (h : a.z = 0) : a.add b = b := G2.add_zero_left a b h
@@ -57,5 +74,6 @@ theorem sub_def {F} [FieldElement F] (a b : G F) : a.sub b = a.add b.neg := rfl
 /-- non-vacuity: the generator is a valid point, and so are its (non-normalised) multiples -/
 example : G1.Valid (G.one : G1) := G1.one_valid
 example : G1.Valid ((G.one : G1).add G.one) := G1.add_valid _ _ G1.one_valid G1.one_valid
+example : G2.Valid ((G.one : G2).add G.one) := G2.add_valid _ _ G2.one_valid G2.one_valid
 
 end Sm9.C04
